@@ -54,7 +54,10 @@ MANIFEST = {
             "property's letter (tab-separated columns of the 12-column table, round trip holds) this is not counted as a violation. "
             "Also implementation-vs-reference only (no Lean model, the lazy extractor is C04's): tables READ LAZILY from a text "
             "file, row-indexed into pieces (slices, masks, index lists) and written as np.concatenate(pieces) in one call or one "
-            "after the other must give the selected source lines once each. Six defects found and fixed (known_findings.json).",
+            "after the other must give the selected source lines once each; lazily (and eagerly) read tables of every delimited "
+            "format and FASTQ with EACH single field replaced, written, compared with the canonical serialisation; one eager table "
+            "object written repeatedly (whole / slices / slices of slices, separate targets): every output canonical and the table "
+            "object unchanged. Seven defects found and fixed (known_findings.json).",
     "technique": "Lean 4 proof over an executable model (induction over rows / write list / writer sessions) + constants regenerated from source + differential correspondence with the implementation",
     "design": "§6 C03",
 }
@@ -339,7 +342,7 @@ REPLACE_FMTS = ["bed3", "bed6", "bdg", "narrowpeak", "gtf", "sam", "vcfs", "fast
 def replace_cases(tier, rng):
     """a table READ LAZILY (default reader) from a text file, ONE field replaced by new values, then written: the bytes
     must be the canonical serialisation of the table with that column replaced (all other fields as in the source)"""
-    per = {"quick": 3, "thorough": 40, "widen": 10}[tier]
+    per = {"quick": 8, "thorough": 60, "widen": 20}[tier]
     for fmt in REPLACE_FMTS:
         for j in range(len(T[fmt][3])):
             for _ in range(per):
